@@ -747,13 +747,18 @@ impl<S: Sample> RenderedImage<S> {
         *grid_lock = FrameRender::Rendering;
         drop(grid_lock);
 
-        composite(
+        if let Err(e) = composite(
             &self.image.frame,
             &mut grid,
             self.image.refs.clone(),
             oriented_image_region,
             pool,
-        )?;
+        ) {
+            // Leave the `Rendering` state and wake up waiters; otherwise the handle is stuck in
+            // `Rendering` forever and every later `wait_until_render` blocks.
+            drop(self.image.done_render(FrameRender::ErrTaken));
+            return Err(e);
+        }
 
         let image = Arc::new(grid);
         drop(
